@@ -203,6 +203,13 @@ func c06Run(c *vlib.Ctx, idx int, sc c06Scenario) {
 	if sc.Stage == "detector-conflict-race" {
 		copt.Env = append(copt.Env, "VERIF_POINTS=envman.create.afterDetectorRead=sleep(300)")
 	}
+	if strings.HasPrefix(sc.Hooks, "tasks") {
+		// DESTROY hook tasks make the teardown wait for a second release round: the event loop is held up
+		// right after it has handed the first round over, so that the teardown registers its channel for the
+		// second round before the loop does its bookkeeping for the first
+		copt.Env = append(copt.Env, "VERIF_POINTS=envman.released.afterSend=sleep(100)")
+		c.Count("teardowns_with_hook_tasks_and_event_loop_held_after_release", 1)
+	}
 	s, err := coresim.Start(copt)
 	if err != nil {
 		c.Inconclusive("coresim start: " + truncate(err.Error(), 12000))
